@@ -538,6 +538,39 @@ func checkC13() fw.Check {
 					return o, ""
 				}})
 			}
+			// the whole TTL range of a byte against a target that never answers (rejected behind router 2): 255 entries,
+			// none of them the destination (a sender that counts in 8 bits must still stop after 255)
+			for _, proto := range []string{"udp", "icmp"} {
+				proto := proto
+				if n0 < 3 || (proto == "icmp" && tier != "thorough") {
+					continue
+				}
+				cfgs = append(cfgs, c13Cfg{name: fmt.Sprintf("max-ttl-255-unreachable-%s/N%d", proto, n0), n: n0, unreach: 2, run: func(l *lab) (c13Out, string) {
+					o := l.cli("-P", proto, "-q", "1", "-Q", "0", "-m", "255", "--timeout", "500", l.dest(false))
+					if o.err != "" {
+						return o, "CLI failed: " + o.err
+					}
+					if len(o.runs) != 1 || len(o.runs[0]) != 255 {
+						n := -1
+						if len(o.runs) == 1 {
+							n = len(o.runs[0])
+						}
+						return o, fmt.Sprintf("expected one run of 255 entries, got %d runs / %d entries", len(o.runs), n)
+					}
+					for i, h := range o.runs[0] {
+						if h.TTL != i+1 {
+							return o, fmt.Sprintf("entry %d has ttl %d", i, h.TTL)
+						}
+						if h.IP != "" && h.IP != l.hopAddr(1, false) && h.IP != l.hopAddr(2, false) {
+							return o, fmt.Sprintf("ttl %d reports %s, which is not on the path", h.TTL, h.IP)
+						}
+					}
+					if o.runs[0][0].IP != l.hopAddr(1, false) {
+						return o, fmt.Sprintf("ttl 1 reports %q", o.runs[0][0].IP)
+					}
+					return o, ""
+				}})
+			}
 			// one router silent
 			for _, proto := range []string{"icmp", "udp", "tcp"} {
 				proto := proto
